@@ -57,6 +57,8 @@ class Layout:
     """Layout choices drawn from a tape; Layout(None) is the canonical layout."""
 
     def __init__(self, tape=None, noise=0.0, block_comment=True):
+        if not noise:
+            tape = None
         self.tape = tape
         self.noise = noise if tape is not None else 0.0
         self.block_comment_left = 1 if (block_comment and tape is not None) else 0
